@@ -41,6 +41,11 @@ type PtrV struct {
 	Path []int
 	As   types.Type // non-nil: unsafe reinterpretation of the cell(s) at Path
 	Fn   *ssa.Function
+	// SymIdx != nil: the last element of Path is symbolic (an index into an
+	// array of scalars, already checked to be in range); only loads go through it
+	SymIdx  *term.Term
+	SymType types.Type
+	SymLen  int
 }
 
 func (p PtrV) IsNil() bool { return p.Obj == nil }
